@@ -25,7 +25,7 @@ def rand_schedule(rng, ns, n):
         elif r < 0.7:
             st.append(["send", s, "QUIT"])
         elif r < 0.8:
-            st.append(["vanish", s])
+            st.append(["vanish", s] if rng.random() < 0.6 else ["vanish", s, "reset"])
         elif r < 0.86:
             st.append(["send", s, rng.choice(["PWD", "PASV", "FOO", "REST 1"])])
         elif r < 0.9:
@@ -52,6 +52,17 @@ def families(tier, rng):
         base = rand_schedule(rng, 4, 24)
         for k in range(1, len(base)):
             fam.append(("cut", base[:k] + [["srvclose"]]))
+    # a peer that is gone (closed or reset) a few loop iterations after connecting - before, while or just after the greeting is
+    # written - and sessions ending by themselves racing with server.close(); then the limits must still be fully available
+    for end in (["vanish", 1], ["vanish", 1, "reset"]):
+        for a in range(0, 7):
+            fam.append(("early", [["nq", ["connect", 1]], ["iter", a], ["nq", end], ["tick", 0], ["connect", 2], ["connect", 3],
+                                  ["send", 2, "USER u1"], ["send", 2, "PASS pw1"], ["send", 2, "QUIT"], ["connect", 4], ["connect", 1], ["srvclose"]]))
+            fam.append(("early2", [["connect", 2], ["nq", ["connect", 1]], ["nq", ["connect", 3]], ["iter", a], ["nq", end], ["nq", ["vanish", 3, "reset"]],
+                                   ["tick", 0], ["connect", 4], ["connect", 1], ["connect", 3], ["srvclose"]]))
+            fam.append(("userrace", [["connect", 1], ["connect", 2], ["send", 2, "USER u1"], ["send", 2, "PASS pw1"], ["nq", ["send", 1, "USER u2"]],
+                                     ["iter", a], ["nq", end], ["tick", 0], ["send", 2, "QUIT"], ["connect", 3], ["send", 3, "USER u2"],
+                                     ["connect", 4], ["send", 4, "USER u1"], ["send", 4, "PASS pw1"], ["srvclose"]]))
     return fam
 
 
